@@ -267,6 +267,9 @@ func (c *Cond) Wait() {
 	if s.Tearing() {
 		return
 	}
+	if !s.Own() {
+		s.Foreign("condition wait on " + c.name())
+	}
 	// register and release the lock in one atomic step (the baton is held)
 	w := &waiter{thread: s.Current()}
 	c.waiters = append(c.waiters, w)
